@@ -1,1 +1,1247 @@
-//! gencram — stub (to be implemented).
+//! gencram — CRAM-mode generator of the SAM data model.
+//!
+//! Everything is generated as a *description* first (plain harness structs: reference sequences as
+//! byte vectors, reads as edit scripts against the reference); the values handed to noodles
+//! (`sam::Header`, `fasta::Repository`, `RecordBuf`) are derived from the descriptions through the
+//! public builders only. Oracles are computed from the descriptions, never by asking noodles.
+//!
+//! Contents
+//! * random reference sequences (ACGTN, optionally IUPAC codes and lower case) and matching @SQ
+//!   lines (with or without M5; the MD5 is computed by the harness' own implementation in `md5`);
+//! * mapped reads derived from the reference by an edit script (match, mismatch, insertion,
+//!   deletion, N-skip, soft clip, hard clip, padding): CIGAR, bases, span and the features the
+//!   CRAM writer has to emit are known by construction;
+//! * unmapped reads (placed and unplaced), templates of exactly two primary segments with
+//!   mutually consistent mate fields and TLEN (SAMv1 §1.4.9), secondary / supplementary single
+//!   alignments, read groups, typed aux tags incl. MD/NM present or absent, unique read names;
+//! * flag-controlled defect classes: records without qualities, unmapped records without bases and
+//!   qualities, mapped records without bases;
+//! * `sorted` mode: coordinate order over the references with the unplaced reads as a tail.
+
+pub mod md5;
+
+use std::num::NonZero;
+
+use bstr::BString;
+use noodles_core::Position;
+use noodles_fasta as fasta;
+use noodles_sam::{
+    self as sam,
+    alignment::{
+        RecordBuf,
+        record::{
+            Flags, MappingQuality,
+            cigar::{Op, op::Kind},
+            data::field::Tag,
+        },
+        record_buf::{
+            Cigar, Data, QualityScores, Sequence,
+            data::field::{Value, value::Array},
+        },
+    },
+    header::record::value::{
+        Map,
+        map::{self, ReadGroup, ReferenceSequence, header::Version, reference_sequence::tag as sqtag},
+    },
+};
+use serde_json::{Value as Json, json};
+use vcore::Rng;
+
+pub const F_PAIRED: u16 = 0x1;
+pub const F_PROPER: u16 = 0x2;
+pub const F_UNMAPPED: u16 = 0x4;
+pub const F_MATE_UNMAPPED: u16 = 0x8;
+pub const F_REVERSE: u16 = 0x10;
+pub const F_MATE_REVERSE: u16 = 0x20;
+pub const F_FIRST: u16 = 0x40;
+pub const F_LAST: u16 = 0x80;
+pub const F_SECONDARY: u16 = 0x100;
+pub const F_QCFAIL: u16 = 0x200;
+pub const F_DUP: u16 = 0x400;
+pub const F_SUPPLEMENTARY: u16 = 0x800;
+
+/// One reference sequence.
+#[derive(Clone, Debug)]
+pub struct RefSeq {
+    pub name: String,
+    pub seq: Vec<u8>,
+    /// whether the @SQ line handed to the writer carries M5 (the writer adds it otherwise)
+    pub with_m5: bool,
+}
+
+/// One step of the edit script of a mapped read.
+#[derive(Clone, Debug, PartialEq, Eq)]
+pub enum Edit {
+    /// `n` read bases equal (case-insensitively) to the reference
+    Match(usize),
+    /// `n` read bases that differ from the reference base at their position
+    Mismatch(usize),
+    Ins(usize),
+    Del(usize),
+    Skip(usize),
+    Soft(usize),
+    Hard(usize),
+    Pad(usize),
+}
+
+/// A typed aux value (description side).
+#[derive(Clone, Debug, PartialEq)]
+pub enum Aux {
+    A(u8),
+    I8(i8),
+    U8(u8),
+    I16(i16),
+    U16(u16),
+    I32(i32),
+    U32(u32),
+    /// f32 as raw bits (NaN payloads are compared bit by bit)
+    F(u32),
+    Z(Vec<u8>),
+    H(Vec<u8>),
+    BI8(Vec<i8>),
+    BU8(Vec<u8>),
+    BI16(Vec<i16>),
+    BU16(Vec<u16>),
+    BI32(Vec<i32>),
+    BU32(Vec<u32>),
+    BF(Vec<u32>),
+}
+
+impl Aux {
+    pub fn type_code(&self) -> &'static str {
+        match self {
+            Aux::A(_) => "A",
+            Aux::I8(_) => "c",
+            Aux::U8(_) => "C",
+            Aux::I16(_) => "s",
+            Aux::U16(_) => "S",
+            Aux::I32(_) => "i",
+            Aux::U32(_) => "I",
+            Aux::F(_) => "f",
+            Aux::Z(_) => "Z",
+            Aux::H(_) => "H",
+            Aux::BI8(_) => "Bc",
+            Aux::BU8(_) => "BC",
+            Aux::BI16(_) => "Bs",
+            Aux::BU16(_) => "BS",
+            Aux::BI32(_) => "Bi",
+            Aux::BU32(_) => "BI",
+            Aux::BF(_) => "Bf",
+        }
+    }
+
+    pub fn to_value(&self) -> Value {
+        match self {
+            Aux::A(c) => Value::Character(*c),
+            Aux::I8(v) => Value::Int8(*v),
+            Aux::U8(v) => Value::UInt8(*v),
+            Aux::I16(v) => Value::Int16(*v),
+            Aux::U16(v) => Value::UInt16(*v),
+            Aux::I32(v) => Value::Int32(*v),
+            Aux::U32(v) => Value::UInt32(*v),
+            Aux::F(b) => Value::Float(f32::from_bits(*b)),
+            Aux::Z(s) => Value::String(BString::from(s.clone())),
+            Aux::H(s) => Value::Hex(BString::from(s.clone())),
+            Aux::BI8(v) => Value::Array(Array::Int8(v.clone())),
+            Aux::BU8(v) => Value::Array(Array::UInt8(v.clone())),
+            Aux::BI16(v) => Value::Array(Array::Int16(v.clone())),
+            Aux::BU16(v) => Value::Array(Array::UInt16(v.clone())),
+            Aux::BI32(v) => Value::Array(Array::Int32(v.clone())),
+            Aux::BU32(v) => Value::Array(Array::UInt32(v.clone())),
+            Aux::BF(v) => Value::Array(Array::Float(v.iter().map(|b| f32::from_bits(*b)).collect())),
+        }
+    }
+
+    /// The description of a noodles value (used on read-back values; a pure data conversion).
+    pub fn from_value(v: &Value) -> Aux {
+        match v {
+            Value::Character(c) => Aux::A(*c),
+            Value::Int8(v) => Aux::I8(*v),
+            Value::UInt8(v) => Aux::U8(*v),
+            Value::Int16(v) => Aux::I16(*v),
+            Value::UInt16(v) => Aux::U16(*v),
+            Value::Int32(v) => Aux::I32(*v),
+            Value::UInt32(v) => Aux::U32(*v),
+            Value::Float(f) => Aux::F(f.to_bits()),
+            Value::String(s) => Aux::Z(s.to_vec()),
+            Value::Hex(s) => Aux::H(s.to_vec()),
+            Value::Array(Array::Int8(v)) => Aux::BI8(v.clone()),
+            Value::Array(Array::UInt8(v)) => Aux::BU8(v.clone()),
+            Value::Array(Array::Int16(v)) => Aux::BI16(v.clone()),
+            Value::Array(Array::UInt16(v)) => Aux::BU16(v.clone()),
+            Value::Array(Array::Int32(v)) => Aux::BI32(v.clone()),
+            Value::Array(Array::UInt32(v)) => Aux::BU32(v.clone()),
+            Value::Array(Array::Float(v)) => Aux::BF(v.iter().map(|f| f.to_bits()).collect()),
+        }
+    }
+
+    /// SAM text of the value (`TYPE:VALUE`), rendered by the harness.
+    pub fn render(&self) -> String {
+        fn arr<T: std::fmt::Display>(t: char, v: &[T]) -> String {
+            let mut s = format!("B:{t}");
+            for x in v {
+                s.push(',');
+                s.push_str(&x.to_string());
+            }
+            s
+        }
+        match self {
+            Aux::A(c) => format!("A:{}", *c as char),
+            Aux::I8(v) => format!("i:{v}"),
+            Aux::U8(v) => format!("i:{v}"),
+            Aux::I16(v) => format!("i:{v}"),
+            Aux::U16(v) => format!("i:{v}"),
+            Aux::I32(v) => format!("i:{v}"),
+            Aux::U32(v) => format!("i:{v}"),
+            Aux::F(b) => format!("f:{}", f32::from_bits(*b)),
+            Aux::Z(s) => format!("Z:{}", String::from_utf8_lossy(s)),
+            Aux::H(s) => format!("H:{}", String::from_utf8_lossy(s)),
+            Aux::BI8(v) => arr('c', v),
+            Aux::BU8(v) => arr('C', v),
+            Aux::BI16(v) => arr('s', v),
+            Aux::BU16(v) => arr('S', v),
+            Aux::BI32(v) => arr('i', v),
+            Aux::BU32(v) => arr('I', v),
+            Aux::BF(v) => arr('f', &v.iter().map(|b| f32::from_bits(*b)).collect::<Vec<_>>()),
+        }
+    }
+}
+
+/// How many features of each kind the CRAM writer must derive from a read (known by construction).
+#[derive(Clone, Debug, Default, PartialEq, Eq)]
+pub struct FeatureCounts {
+    /// mismatch with both bases in ACGTN (substitution code)
+    pub substitution: usize,
+    /// mismatch where the read base or the reference base is outside ACGTN (read base feature)
+    pub read_base: usize,
+    pub insert_base: usize,
+    pub insertion: usize,
+    pub deletion: usize,
+    pub ref_skip: usize,
+    pub soft_clip: usize,
+    pub hard_clip: usize,
+    pub padding: usize,
+}
+
+impl FeatureCounts {
+    pub fn total(&self) -> usize {
+        self.substitution
+            + self.read_base
+            + self.insert_base
+            + self.insertion
+            + self.deletion
+            + self.ref_skip
+            + self.soft_clip
+            + self.hard_clip
+            + self.padding
+    }
+
+    pub fn kinds(&self) -> Vec<(&'static str, usize)> {
+        vec![
+            ("substitution", self.substitution),
+            ("read_base", self.read_base),
+            ("insert_base", self.insert_base),
+            ("insertion", self.insertion),
+            ("deletion", self.deletion),
+            ("ref_skip", self.ref_skip),
+            ("soft_clip", self.soft_clip),
+            ("hard_clip", self.hard_clip),
+            ("padding", self.padding),
+        ]
+    }
+}
+
+/// Description of one alignment record.
+#[derive(Clone, Debug)]
+pub struct ReadDesc {
+    pub name: Option<Vec<u8>>,
+    pub flags: u16,
+    /// 0-based reference index
+    pub ref_id: Option<usize>,
+    /// 1-based
+    pub pos: Option<usize>,
+    pub mapq: Option<u8>,
+    /// CIGAR as written: (op char, len)
+    pub cigar: Vec<(char, usize)>,
+    /// empty = missing (`*`)
+    pub bases: Vec<u8>,
+    /// empty = missing (`*`)
+    pub quals: Vec<u8>,
+    pub mate_ref: Option<usize>,
+    pub mate_pos: Option<usize>,
+    pub tlen: i32,
+    pub tags: Vec<([u8; 2], Aux)>,
+    /// edit script the read was derived with (mapped reads only)
+    pub edits: Vec<Edit>,
+    pub features: FeatureCounts,
+    /// template number (both segments of a pair share it)
+    pub template: usize,
+    /// index of the mate in `Stream::reads` (pairs only)
+    pub mate: Option<usize>,
+}
+
+impl ReadDesc {
+    pub fn is_unmapped(&self) -> bool {
+        self.flags & F_UNMAPPED != 0
+    }
+
+    pub fn is_paired(&self) -> bool {
+        self.flags & F_PAIRED != 0
+    }
+
+    /// Number of reference bases the CIGAR consumes (Σ M/D/N/=/X).
+    pub fn ref_len(&self) -> usize {
+        self.cigar.iter().filter(|(k, _)| matches!(k, 'M' | 'D' | 'N' | '=' | 'X')).map(|(_, n)| n).sum()
+    }
+
+    /// Inclusive 1-based reference span of a mapped, placed read (from POS and CIGAR).
+    pub fn span(&self) -> Option<(usize, usize)> {
+        if self.is_unmapped() {
+            return None;
+        }
+        let p = self.pos?;
+        self.ref_id?;
+        let n = self.ref_len();
+        Some((p, p + n.max(1) - 1))
+    }
+
+    pub fn cigar_string(&self) -> String {
+        if self.cigar.is_empty() {
+            return "*".into();
+        }
+        self.cigar.iter().map(|(k, n)| format!("{n}{k}")).collect()
+    }
+
+    /// CIGAR after the normalisation that is inherent to CRAM's edit-script storage: `=`/`X`
+    /// become `M`, adjacent operations of the same kind are merged.
+    pub fn cigar_normalised(&self) -> Vec<(char, usize)> {
+        normalise_cigar(&self.cigar)
+    }
+
+    /// One SAM line rendered by the harness (for witnesses).
+    pub fn sam_line(&self, refs: &[RefSeq]) -> String {
+        let rn = |r: Option<usize>| r.map(|i| refs[i].name.clone()).unwrap_or_else(|| "*".into());
+        let mut s = format!(
+            "{}\t{}\t{}\t{}\t{}\t{}\t{}\t{}\t{}\t{}\t{}",
+            self.name.as_ref().map(|n| String::from_utf8_lossy(n).to_string()).unwrap_or_else(|| "*".into()),
+            self.flags,
+            rn(self.ref_id),
+            self.pos.unwrap_or(0),
+            self.mapq.unwrap_or(255),
+            self.cigar_string(),
+            rn(self.mate_ref),
+            self.mate_pos.unwrap_or(0),
+            self.tlen,
+            if self.bases.is_empty() { "*".to_string() } else { String::from_utf8_lossy(&self.bases).to_string() },
+            if self.quals.is_empty() { "*".to_string() } else { self.quals.iter().map(|q| (q + 33) as char).collect() },
+        );
+        for (t, v) in &self.tags {
+            s.push('\t');
+            s.push(t[0] as char);
+            s.push(t[1] as char);
+            s.push(':');
+            s.push_str(&v.render());
+        }
+        s
+    }
+
+    /// Conversion to the noodles value through public constructors only.
+    pub fn to_record_buf(&self) -> RecordBuf {
+        let mut b = RecordBuf::builder().set_flags(Flags::from(self.flags));
+        if let Some(n) = &self.name {
+            b = b.set_name(BString::from(n.clone()));
+        }
+        if let Some(r) = self.ref_id {
+            b = b.set_reference_sequence_id(r);
+        }
+        if let Some(p) = self.pos {
+            b = b.set_alignment_start(Position::new(p).expect("pos > 0"));
+        }
+        if let Some(q) = self.mapq.and_then(MappingQuality::new) {
+            b = b.set_mapping_quality(q);
+        }
+        if !self.cigar.is_empty() {
+            let ops: Vec<Op> = self.cigar.iter().map(|(k, n)| Op::new(kind_of(*k), *n)).collect();
+            b = b.set_cigar(Cigar::from(ops));
+        }
+        if let Some(r) = self.mate_ref {
+            b = b.set_mate_reference_sequence_id(r);
+        }
+        if let Some(p) = self.mate_pos {
+            b = b.set_mate_alignment_start(Position::new(p).expect("mate pos > 0"));
+        }
+        b = b.set_template_length(self.tlen);
+        if !self.bases.is_empty() {
+            b = b.set_sequence(Sequence::from(self.bases.clone()));
+        }
+        if !self.quals.is_empty() {
+            b = b.set_quality_scores(QualityScores::from(self.quals.clone()));
+        }
+        if !self.tags.is_empty() {
+            let data: Data = self.tags.iter().map(|(t, v)| (Tag::new(t[0], t[1]), v.to_value())).collect();
+            b = b.set_data(data);
+        }
+        b.build()
+    }
+}
+
+pub fn kind_of(c: char) -> Kind {
+    match c {
+        'M' => Kind::Match,
+        'I' => Kind::Insertion,
+        'D' => Kind::Deletion,
+        'N' => Kind::Skip,
+        'S' => Kind::SoftClip,
+        'H' => Kind::HardClip,
+        'P' => Kind::Pad,
+        '=' => Kind::SequenceMatch,
+        'X' => Kind::SequenceMismatch,
+        _ => panic!("bad cigar op {c}"),
+    }
+}
+
+pub fn char_of(k: Kind) -> char {
+    match k {
+        Kind::Match => 'M',
+        Kind::Insertion => 'I',
+        Kind::Deletion => 'D',
+        Kind::Skip => 'N',
+        Kind::SoftClip => 'S',
+        Kind::HardClip => 'H',
+        Kind::Pad => 'P',
+        Kind::SequenceMatch => '=',
+        Kind::SequenceMismatch => 'X',
+    }
+}
+
+pub fn normalise_cigar(c: &[(char, usize)]) -> Vec<(char, usize)> {
+    let mut out: Vec<(char, usize)> = Vec::new();
+    for &(k, n) in c {
+        let k = if k == '=' || k == 'X' { 'M' } else { k };
+        match out.last_mut() {
+            Some(l) if l.0 == k => l.1 += n,
+            _ => out.push((k, n)),
+        }
+    }
+    out
+}
+
+/// Knobs of the stream generator.
+#[derive(Clone, Debug)]
+pub struct GenOpts {
+    pub n_refs: usize,
+    /// reference length range
+    pub ref_len: (usize, usize),
+    /// number of templates (a pair yields two records)
+    pub n_templates: usize,
+    /// coordinate-sorted output with the unplaced reads as a tail
+    pub sorted: bool,
+    /// IUPAC codes and lower case in the references
+    pub iupac_ref: bool,
+    /// per-mille probabilities
+    pub pm_pair: u64,
+    pub pm_unmapped_single: u64,
+    pub pm_secondary_or_supp: u64,
+    /// records with bases but without qualities (known defect class)
+    pub pm_noqual: u64,
+    /// unmapped records with neither bases nor qualities (known defect class)
+    pub pm_nobases_unmapped: u64,
+    /// mapped records without bases (makes the writer panic)
+    pub pm_nobases_mapped: u64,
+    /// records without a name (unpaired records only)
+    pub pm_noname: u64,
+    /// maximal read length
+    pub max_read_len: usize,
+    /// N-skips up to this length
+    pub max_skip: usize,
+    /// keep the two segments of a pair next to each other (otherwise anywhere in the stream)
+    pub pm_mates_adjacent: u64,
+    /// number of read groups in the header (0 = none)
+    pub n_read_groups: usize,
+    /// per-mille probability that a record carries aux tags at all
+    pub pm_tags: u64,
+    /// restrict all reads to one reference (single-reference slices)
+    pub single_ref_reads: bool,
+}
+
+impl Default for GenOpts {
+    fn default() -> Self {
+        GenOpts {
+            n_refs: 2,
+            ref_len: (50, 400),
+            n_templates: 20,
+            sorted: false,
+            iupac_ref: false,
+            pm_pair: 350,
+            pm_unmapped_single: 100,
+            pm_secondary_or_supp: 60,
+            pm_noqual: 0,
+            pm_nobases_unmapped: 0,
+            pm_nobases_mapped: 0,
+            pm_noname: 0,
+            max_read_len: 60,
+            max_skip: 120,
+            pm_mates_adjacent: 400,
+            n_read_groups: 2,
+            pm_tags: 700,
+            single_ref_reads: false,
+        }
+    }
+}
+
+/// A generated header + record stream (description side).
+#[derive(Clone, Debug)]
+pub struct Stream {
+    pub refs: Vec<RefSeq>,
+    pub read_groups: Vec<String>,
+    pub reads: Vec<ReadDesc>,
+}
+
+impl Stream {
+    /// The `sam::Header` handed to the writer: @HD, @SQ (LN, optionally M5), @RG.
+    pub fn header(&self) -> sam::Header {
+        let mut b = sam::Header::builder().set_header(Map::<map::Header>::new(Version::new(1, 6)));
+        for r in &self.refs {
+            let len = NonZero::new(r.seq.len()).expect("reference length > 0");
+            let m = if r.with_m5 {
+                Map::<ReferenceSequence>::builder()
+                    .set_length(len)
+                    .insert(sqtag::MD5_CHECKSUM, BString::from(md5::hex(&md5::md5_of_reference(&r.seq))))
+                    .build()
+                    .expect("valid @SQ")
+            } else {
+                Map::<ReferenceSequence>::new(len)
+            };
+            b = b.add_reference_sequence(r.name.as_bytes(), m);
+        }
+        for g in &self.read_groups {
+            b = b.add_read_group(g.as_bytes(), Map::<ReadGroup>::default());
+        }
+        b.build()
+    }
+
+    /// `fasta::Repository` over in-memory records.
+    pub fn repository(&self) -> fasta::Repository {
+        let recs: Vec<fasta::Record> = self
+            .refs
+            .iter()
+            .map(|r| {
+                fasta::Record::new(
+                    fasta::record::Definition::new(r.name.as_bytes(), None),
+                    fasta::record::Sequence::from(r.seq.clone()),
+                )
+            })
+            .collect();
+        fasta::Repository::new(recs)
+    }
+
+    pub fn record_bufs(&self) -> Vec<RecordBuf> {
+        self.reads.iter().map(|r| r.to_record_buf()).collect()
+    }
+
+    pub fn total_bases(&self) -> u64 {
+        self.reads.iter().map(|r| r.bases.len() as u64).sum()
+    }
+
+    pub fn to_json(&self) -> Json {
+        json!({
+            "refs": self.refs.iter().map(|r| json!({"name": r.name, "seq": String::from_utf8_lossy(&r.seq), "m5": r.with_m5})).collect::<Vec<_>>(),
+            "read_groups": self.read_groups,
+            "sam": self.reads.iter().map(|r| r.sam_line(&self.refs)).collect::<Vec<_>>(),
+        })
+    }
+}
+
+const ACGT: &[u8] = b"ACGT";
+const IUPAC_EXTRA: &[u8] = b"RYSWKMBDHV";
+
+fn gen_reference(rng: &mut Rng, len: usize, iupac: bool) -> Vec<u8> {
+    let mut s = Vec::with_capacity(len);
+    // runs of N are typical for real references
+    let mut n_run = 0usize;
+    for _ in 0..len {
+        if n_run > 0 {
+            n_run -= 1;
+            s.push(b'N');
+            continue;
+        }
+        let r = rng.below(1000);
+        let b = if r < 8 {
+            n_run = rng.urange(0, 6);
+            b'N'
+        } else if iupac && r < 40 {
+            *rng.pick(IUPAC_EXTRA)
+        } else {
+            *rng.pick(ACGT)
+        };
+        let b = if iupac && rng.chance(1, 8) { b.to_ascii_lowercase() } else { b };
+        s.push(b);
+    }
+    s
+}
+
+fn is_acgtn(b: u8) -> bool {
+    matches!(b.to_ascii_uppercase(), b'A' | b'C' | b'G' | b'T' | b'N')
+}
+
+/// A read base that differs (case-insensitively) from `refb`.
+fn mismatch_base(rng: &mut Rng, refb: u8, exotic: bool) -> u8 {
+    loop {
+        let r = rng.below(100);
+        let b = if r < 70 {
+            *rng.pick(ACGT)
+        } else if r < 85 {
+            b'N'
+        } else if exotic {
+            *rng.pick(IUPAC_EXTRA)
+        } else {
+            *rng.pick(ACGT)
+        };
+        let b = if exotic && rng.chance(1, 6) { b.to_ascii_lowercase() } else { b };
+        if !b.eq_ignore_ascii_case(&refb) {
+            return b;
+        }
+    }
+}
+
+fn random_base(rng: &mut Rng, exotic: bool) -> u8 {
+    let r = rng.below(100);
+    let b = if r < 88 {
+        *rng.pick(ACGT)
+    } else if r < 95 || !exotic {
+        b'N'
+    } else {
+        *rng.pick(IUPAC_EXTRA)
+    };
+    if exotic && rng.chance(1, 10) { b.to_ascii_lowercase() } else { b }
+}
+
+fn gen_quals(rng: &mut Rng, n: usize) -> Vec<u8> {
+    match rng.below(6) {
+        0 => vec![rng.below(94) as u8; n],
+        1 => (0..n).map(|_| rng.below(94) as u8).collect(),
+        _ => {
+            // binned, illumina-like
+            let bins = [2u8, 11, 25, 37, 40];
+            (0..n).map(|_| *rng.pick(&bins)).collect()
+        }
+    }
+}
+
+/// Builds a mapped read on reference `rid` starting at 1-based `start`. Returns the read without
+/// name / pairing information.
+pub fn gen_mapped_read(rng: &mut Rng, refs: &[RefSeq], rid: usize, start: usize, o: &GenOpts, exotic: bool) -> ReadDesc {
+    let rseq = &refs[rid].seq;
+    assert!(start >= 1 && start <= rseq.len());
+    let mut remaining_ref = rseq.len() - start + 1;
+    let mut remaining_read = o.max_read_len.max(2);
+    let mut edits: Vec<Edit> = Vec::new();
+
+    // leading clips
+    if rng.chance(1, 8) {
+        edits.push(Edit::Hard(1 + rng.skewed(30) as usize));
+    }
+    if rng.chance(1, 5) && remaining_read > 4 {
+        let n = 1 + rng.skewed(8) as usize;
+        let n = n.min(remaining_read - 2);
+        edits.push(Edit::Soft(n));
+        remaining_read -= n;
+    }
+    let body_ops = 1 + rng.skewed(9) as usize;
+    let mut body: Vec<Edit> = Vec::new();
+    for k in 0..body_ops {
+        let first = k == 0;
+        let last = k + 1 == body_ops;
+        if remaining_read == 0 || remaining_ref == 0 {
+            break;
+        }
+        let r = rng.below(100);
+        // the first and last body operation consume both read and reference (rarely an insertion)
+        let e = if first || last {
+            if r < 6 && !(first && last) {
+                Edit::Ins(1 + rng.skewed(3) as usize)
+            } else if r < 25 {
+                Edit::Mismatch(1 + rng.skewed(2) as usize)
+            } else {
+                Edit::Match(1 + rng.skewed(40) as usize)
+            }
+        } else if r < 40 {
+            Edit::Match(1 + rng.skewed(40) as usize)
+        } else if r < 58 {
+            Edit::Mismatch(1 + rng.skewed(3) as usize)
+        } else if r < 72 {
+            Edit::Ins(1 + rng.skewed(5) as usize)
+        } else if r < 86 {
+            Edit::Del(1 + rng.skewed(9) as usize)
+        } else if r < 94 {
+            Edit::Skip(1 + rng.skewed(o.max_skip as u64) as usize)
+        } else {
+            Edit::Pad(1 + rng.skewed(2) as usize)
+        };
+        // clamp to what is left
+        let e = match e {
+            Edit::Match(n) => Edit::Match(n.min(remaining_read).min(remaining_ref)),
+            Edit::Mismatch(n) => Edit::Mismatch(n.min(remaining_read).min(remaining_ref)),
+            Edit::Ins(n) => Edit::Ins(n.min(remaining_read)),
+            Edit::Del(n) => {
+                // keep one reference base for the closing match
+                if remaining_ref < 2 {
+                    continue;
+                }
+                Edit::Del(n.min(remaining_ref - 1))
+            }
+            Edit::Skip(n) => {
+                if remaining_ref < 2 {
+                    continue;
+                }
+                Edit::Skip(n.min(remaining_ref - 1))
+            }
+            x => x,
+        };
+        match e {
+            Edit::Match(n) | Edit::Mismatch(n) => {
+                remaining_read -= n;
+                remaining_ref -= n;
+            }
+            Edit::Ins(n) => remaining_read -= n,
+            Edit::Del(n) | Edit::Skip(n) => remaining_ref -= n,
+            _ => {}
+        }
+        body.push(e);
+    }
+    // the body must end with a read+reference consuming operation (or an insertion); drop trailing D/N/P
+    while matches!(body.last(), Some(Edit::Del(_) | Edit::Skip(_) | Edit::Pad(_))) {
+        if let Some(Edit::Del(n) | Edit::Skip(n)) = body.pop() {
+            remaining_ref += n;
+        }
+    }
+    // and start with one
+    while matches!(body.first(), Some(Edit::Del(_) | Edit::Skip(_) | Edit::Pad(_))) {
+        body.remove(0);
+        // the reference bases of a dropped leading D/N are simply not used (start stays)
+    }
+    if !body.iter().any(|e| matches!(e, Edit::Match(_) | Edit::Mismatch(_))) {
+        // at least one aligned base
+        body.push(Edit::Match(1));
+    }
+    edits.extend(body);
+    if rng.chance(1, 5) {
+        edits.push(Edit::Soft(1 + rng.skewed(8) as usize));
+    }
+    if rng.chance(1, 8) {
+        edits.push(Edit::Hard(1 + rng.skewed(30) as usize));
+    }
+
+    // Recompute: walk the edit script over the reference; a leading D/N that was dropped shifted
+    // nothing because the walk restarts at `start`. Clamp anything that would run off the end.
+    let mut bases = Vec::new();
+    let mut rp = start - 1; // 0-based reference cursor
+    let mut feats = FeatureCounts::default();
+    let mut final_edits = Vec::new();
+    for e in edits {
+        match e {
+            Edit::Match(n) => {
+                let n = n.min(rseq.len() - rp);
+                if n == 0 {
+                    continue;
+                }
+                for i in 0..n {
+                    let b = rseq[rp + i];
+                    // same base, possibly in the other case: equal under the statement's comparison
+                    let b = if exotic && rng.chance(1, 12) {
+                        if b.is_ascii_lowercase() { b.to_ascii_uppercase() } else { b.to_ascii_lowercase() }
+                    } else {
+                        b
+                    };
+                    bases.push(b);
+                }
+                rp += n;
+                final_edits.push(Edit::Match(n));
+            }
+            Edit::Mismatch(n) => {
+                let n = n.min(rseq.len() - rp);
+                if n == 0 {
+                    continue;
+                }
+                for i in 0..n {
+                    let rb = rseq[rp + i];
+                    let b = mismatch_base(rng, rb, exotic);
+                    if is_acgtn(rb) && is_acgtn(b) {
+                        feats.substitution += 1;
+                    } else {
+                        feats.read_base += 1;
+                    }
+                    bases.push(b);
+                }
+                rp += n;
+                final_edits.push(Edit::Mismatch(n));
+            }
+            Edit::Ins(n) => {
+                for _ in 0..n {
+                    bases.push(random_base(rng, exotic));
+                }
+                if n == 1 {
+                    feats.insert_base += 1;
+                } else {
+                    feats.insertion += 1;
+                }
+                final_edits.push(Edit::Ins(n));
+            }
+            Edit::Del(n) => {
+                let n = n.min(rseq.len().saturating_sub(rp + 1));
+                if n == 0 {
+                    continue;
+                }
+                rp += n;
+                feats.deletion += 1;
+                final_edits.push(Edit::Del(n));
+            }
+            Edit::Skip(n) => {
+                let n = n.min(rseq.len().saturating_sub(rp + 1));
+                if n == 0 {
+                    continue;
+                }
+                rp += n;
+                feats.ref_skip += 1;
+                final_edits.push(Edit::Skip(n));
+            }
+            Edit::Soft(n) => {
+                for _ in 0..n {
+                    bases.push(random_base(rng, exotic));
+                }
+                feats.soft_clip += 1;
+                final_edits.push(Edit::Soft(n));
+            }
+            Edit::Hard(n) => {
+                feats.hard_clip += 1;
+                final_edits.push(Edit::Hard(n));
+            }
+            Edit::Pad(n) => {
+                feats.padding += 1;
+                final_edits.push(Edit::Pad(n));
+            }
+        }
+    }
+    // a D/N that lost its closing match because the reference ended: close with nothing -> drop it
+    loop {
+        let last_body = final_edits.iter().rposition(|e| !matches!(e, Edit::Soft(_) | Edit::Hard(_)));
+        match last_body {
+            Some(i) if matches!(final_edits[i], Edit::Del(_) | Edit::Skip(_) | Edit::Pad(_)) => {
+                match final_edits.remove(i) {
+                    Edit::Del(_) => feats.deletion -= 1,
+                    Edit::Skip(_) => feats.ref_skip -= 1,
+                    Edit::Pad(_) => feats.padding -= 1,
+                    _ => unreachable!(),
+                }
+            }
+            _ => break,
+        }
+    }
+
+    // CIGAR style
+    let style = rng.below(10);
+    let mut cigar: Vec<(char, usize)> = Vec::new();
+    let push = |c: &mut Vec<(char, usize)>, k: char, n: usize, merge: bool| match c.last_mut() {
+        Some(l) if merge && l.0 == k => l.1 += n,
+        _ => c.push((k, n)),
+    };
+    for e in &final_edits {
+        match (e, style) {
+            // `=`/`X` style
+            (Edit::Match(n), 0..=1) => push(&mut cigar, '=', *n, true),
+            (Edit::Mismatch(n), 0..=1) => push(&mut cigar, 'X', *n, true),
+            // non-canonical: adjacent M operations are not merged
+            (Edit::Match(n) | Edit::Mismatch(n), 2) => push(&mut cigar, 'M', *n, false),
+            (Edit::Match(n) | Edit::Mismatch(n), _) => push(&mut cigar, 'M', *n, true),
+            (Edit::Ins(n), _) => push(&mut cigar, 'I', *n, style != 2),
+            (Edit::Del(n), _) => push(&mut cigar, 'D', *n, style != 2),
+            (Edit::Skip(n), _) => push(&mut cigar, 'N', *n, style != 2),
+            (Edit::Soft(n), _) => push(&mut cigar, 'S', *n, true),
+            (Edit::Hard(n), _) => push(&mut cigar, 'H', *n, true),
+            (Edit::Pad(n), _) => push(&mut cigar, 'P', *n, style != 2),
+        }
+    }
+    let quals = gen_quals(rng, bases.len());
+    let mapq = match rng.below(10) {
+        0 => None,
+        1 => Some(0),
+        2 => Some(254),
+        _ => Some(rng.below(61) as u8),
+    };
+    let mut flags = 0u16;
+    if rng.chance(1, 2) {
+        flags |= F_REVERSE;
+    }
+    if rng.chance(1, 20) {
+        flags |= F_QCFAIL;
+    }
+    if rng.chance(1, 15) {
+        flags |= F_DUP;
+    }
+    ReadDesc {
+        name: None,
+        flags,
+        ref_id: Some(rid),
+        pos: Some(start),
+        mapq,
+        cigar,
+        bases,
+        quals,
+        mate_ref: None,
+        mate_pos: None,
+        tlen: 0,
+        tags: Vec::new(),
+        edits: final_edits,
+        features: feats,
+        template: 0,
+        mate: None,
+    }
+}
+
+/// An unmapped read; `place` = Some((ref, pos)) makes it a placed unmapped read.
+pub fn gen_unmapped_read(rng: &mut Rng, place: Option<(usize, usize)>, max_len: usize, exotic: bool) -> ReadDesc {
+    let n = 1 + rng.skewed(max_len.max(2) as u64 - 1) as usize;
+    let bases: Vec<u8> = (0..n).map(|_| random_base(rng, exotic)).collect();
+    let quals = gen_quals(rng, n);
+    let mut flags = F_UNMAPPED;
+    if rng.chance(1, 20) {
+        flags |= F_QCFAIL;
+    }
+    ReadDesc {
+        name: None,
+        flags,
+        ref_id: place.map(|p| p.0),
+        pos: place.map(|p| p.1),
+        mapq: if rng.bool() { None } else { Some(0) },
+        cigar: Vec::new(),
+        bases,
+        quals,
+        mate_ref: None,
+        mate_pos: None,
+        tlen: 0,
+        tags: Vec::new(),
+        edits: Vec::new(),
+        features: FeatureCounts::default(),
+        template: 0,
+        mate: None,
+    }
+}
+
+fn gen_name(rng: &mut Rng, template: usize, style: u64) -> Vec<u8> {
+    match style {
+        // illumina-like, tokenizer friendly
+        0 => format!("HWI-ST{}:{}:C0ABCACXX:{}:{}:{}:{}", 100 + template % 3, 7, 1 + template % 8, 1101 + template / 7, 1000 + rng.below(20000), 2000 + template)
+            .into_bytes(),
+        1 => format!("read{template:05}").into_bytes(),
+        2 => format!("q.{template}/{}", rng.below(3)).into_bytes(),
+        _ => {
+            // arbitrary printable name over [!-?A-~], unique through the template number
+            let mut s = format!("t{template}_").into_bytes();
+            let extra = rng.skewed(40) as usize;
+            for _ in 0..extra {
+                let c = loop {
+                    let c = rng.range(b'!' as i64, b'~' as i64) as u8;
+                    if c != b'@' {
+                        break c;
+                    }
+                };
+                s.push(c);
+            }
+            s
+        }
+    }
+}
+
+fn gen_tags(rng: &mut Rng, r: &ReadDesc, read_groups: &[String]) -> Vec<([u8; 2], Aux)> {
+    let mut tags: Vec<([u8; 2], Aux)> = Vec::new();
+    let mut used: Vec<[u8; 2]> = Vec::new();
+    let mut add = |tags: &mut Vec<([u8; 2], Aux)>, t: [u8; 2], v: Aux| {
+        if !used.contains(&t) {
+            used.push(t);
+            tags.push((t, v));
+        }
+    };
+    if !read_groups.is_empty() && rng.chance(3, 4) {
+        add(&mut tags, *b"RG", Aux::Z(rng.pick(read_groups).as_bytes().to_vec()));
+    }
+    if !r.is_unmapped() {
+        // MD / NM as an aligner would attach them (values are opaque to the round trip)
+        if rng.chance(1, 2) {
+            let nm = r.edits.iter().map(|e| match e {
+                Edit::Mismatch(n) | Edit::Ins(n) | Edit::Del(n) => *n,
+                _ => 0,
+            }).sum::<usize>();
+            let v = match rng.below(3) {
+                0 => Aux::U8(nm.min(255) as u8),
+                1 => Aux::I32(nm as i32),
+                _ => Aux::U16(nm.min(65535) as u16),
+            };
+            add(&mut tags, *b"NM", v);
+        }
+        if rng.chance(1, 2) {
+            add(&mut tags, *b"MD", Aux::Z(format!("{}", r.ref_len()).into_bytes()));
+        }
+    }
+    let n_extra = rng.skewed(6) as usize;
+    for _ in 0..n_extra {
+        let t = [*rng.pick(b"XYZabqx"), *rng.pick(b"ABCabc0129")];
+        let n_arr = match rng.below(4) {
+            0 => 0,
+            1 => 1,
+            _ => rng.skewed(20) as usize,
+        };
+        let v = match rng.below(17) {
+            0 => Aux::A(rng.range(b'!' as i64, b'~' as i64) as u8),
+            1 => Aux::I8(*rng.pick(&[i8::MIN, -1, 0, 1, i8::MAX, 42])),
+            2 => Aux::U8(*rng.pick(&[0u8, 1, 127, 128, 255])),
+            3 => Aux::I16(*rng.pick(&[i16::MIN, -129, -1, 0, 128, i16::MAX])),
+            4 => Aux::U16(*rng.pick(&[0u16, 255, 256, 32768, u16::MAX])),
+            5 => Aux::I32(*rng.pick(&[i32::MIN, -32769, -1, 0, 65536, i32::MAX])),
+            6 => Aux::U32(*rng.pick(&[0u32, 65535, 65536, 1 << 31, u32::MAX])),
+            7 => Aux::F(*rng.pick(&[0u32, 0x8000_0000, 0x3f80_0000, 0x7f80_0000, 0xff80_0000, 0x0000_0001, 0x7fc0_0000, 0x4049_0fdb, 0xc2f6_e979])),
+            8 => {
+                let n = rng.skewed(30) as usize;
+                Aux::Z((0..n).map(|_| rng.range(b' ' as i64, b'~' as i64) as u8).collect())
+            }
+            9 => {
+                let n = rng.skewed(8) as usize;
+                Aux::H((0..2 * n).map(|_| *rng.pick(b"0123456789ABCDEF")).collect())
+            }
+            10 => Aux::BI8((0..n_arr).map(|_| rng.next_u64() as i8).collect()),
+            11 => Aux::BU8((0..n_arr).map(|_| rng.next_u64() as u8).collect()),
+            12 => Aux::BI16((0..n_arr).map(|_| rng.next_u64() as i16).collect()),
+            13 => Aux::BU16((0..n_arr).map(|_| rng.next_u64() as u16).collect()),
+            14 => Aux::BI32((0..n_arr).map(|_| rng.next_u64() as i32).collect()),
+            15 => Aux::BU32((0..n_arr).map(|_| rng.next_u64() as u32).collect()),
+            _ => Aux::BF((0..n_arr).map(|_| (rng.below(2000) as f32 / 8.0 - 100.0).to_bits()).collect()),
+        };
+        add(&mut tags, t, v);
+    }
+    // tag order is part of the SAM rendering: shuffle
+    rng.shuffle(&mut tags);
+    tags
+}
+
+/// Sets RNEXT/PNEXT/TLEN and the mate flag bits of both segments of every pair from the final
+/// file order (SAMv1 §1.4: TLEN = leftmost mapped base .. rightmost mapped base, plus for the
+/// leftmost segment, minus for the rightmost; 0 when a segment is unmapped or the segments are on
+/// different references; on equal starts the first segment in file order is taken as leftmost).
+pub fn finalize_mates(reads: &mut [ReadDesc]) {
+    // resolve mate indices through the template number
+    let mut by_template: std::collections::HashMap<usize, Vec<usize>> = std::collections::HashMap::new();
+    for (i, r) in reads.iter().enumerate() {
+        if r.is_paired() && r.flags & (F_SECONDARY | F_SUPPLEMENTARY) == 0 {
+            by_template.entry(r.template).or_default().push(i);
+        }
+    }
+    for (_, v) in by_template {
+        if v.len() != 2 {
+            continue;
+        }
+        let (i, j) = (v[0].min(v[1]), v[0].max(v[1]));
+        let (a, b) = (reads[i].clone(), reads[j].clone());
+        let set = |r: &mut ReadDesc, m: &ReadDesc, mi: usize| {
+            r.mate = Some(mi);
+            r.mate_ref = m.ref_id;
+            r.mate_pos = m.pos;
+            r.flags &= !(F_MATE_UNMAPPED | F_MATE_REVERSE);
+            if m.is_unmapped() {
+                r.flags |= F_MATE_UNMAPPED;
+            }
+            if m.flags & F_REVERSE != 0 {
+                r.flags |= F_MATE_REVERSE;
+            }
+        };
+        set(&mut reads[i], &b, j);
+        set(&mut reads[j], &a, i);
+        let (ti, tj) = match (a.span(), b.span()) {
+            (Some((sa, ea)), Some((sb, eb))) if a.ref_id == b.ref_id => {
+                let len = (ea.max(eb) - sa.min(sb) + 1) as i32;
+                if sa <= sb { (len, -len) } else { (-len, len) }
+            }
+            _ => (0, 0),
+        };
+        reads[i].tlen = ti;
+        reads[j].tlen = tj;
+        if ti == 0 {
+            reads[i].flags &= !F_PROPER;
+            reads[j].flags &= !F_PROPER;
+        }
+    }
+}
+
+/// Generates a header + record stream.
+pub fn gen_stream(rng: &mut Rng, o: &GenOpts) -> Stream {
+    let n_refs = o.n_refs.max(1);
+    let refs: Vec<RefSeq> = (0..n_refs)
+        .map(|i| {
+            let len = rng.urange(o.ref_len.0.max(1), o.ref_len.1.max(o.ref_len.0).max(1));
+            RefSeq { name: format!("sq{i}"), seq: gen_reference(rng, len, o.iupac_ref), with_m5: rng.bool() }
+        })
+        .collect();
+    let read_groups: Vec<String> = (0..o.n_read_groups).map(|i| format!("rg{i}")).collect();
+    let exotic = o.iupac_ref;
+    let name_style = rng.below(5);
+    let the_ref = rng.usize_below(n_refs);
+    let pick_ref = |rng: &mut Rng| if o.single_ref_reads { the_ref } else { rng.usize_below(n_refs) };
+
+    let mut templates: Vec<Vec<ReadDesc>> = Vec::new();
+    for t in 0..o.n_templates {
+        let r = rng.below(1000);
+        let mut segs: Vec<ReadDesc> = Vec::new();
+        if r < o.pm_pair {
+            // pair: mapped/mapped (same or other reference), mapped/unmapped (placed), unmapped/unmapped
+            let kind = rng.below(10);
+            let rid = pick_ref(rng);
+            let p1 = rng.urange(1, refs[rid].seq.len());
+            let mut a = gen_mapped_read(rng, &refs, rid, p1, o, exotic);
+            let mut b;
+            if kind < 6 {
+                // both mapped, same reference, mate nearby
+                let lo = p1.saturating_sub(40).max(1);
+                let hi = (p1 + 150).min(refs[rid].seq.len());
+                let p2 = rng.urange(lo, hi);
+                b = gen_mapped_read(rng, &refs, rid, p2, o, exotic);
+                if rng.chance(2, 3) {
+                    a.flags |= F_PROPER;
+                    b.flags |= F_PROPER;
+                }
+            } else if kind < 8 && !o.single_ref_reads && n_refs > 1 {
+                let rid2 = (rid + 1 + rng.usize_below(n_refs - 1)) % n_refs;
+                let p2 = rng.urange(1, refs[rid2].seq.len());
+                b = gen_mapped_read(rng, &refs, rid2, p2, o, exotic);
+            } else if kind < 9 {
+                // unmapped mate placed at the mapped segment's coordinates; keep it inside the reference
+                let room = refs[rid].seq.len() - p1 + 1;
+                b = gen_unmapped_read(rng, Some((rid, p1)), o.max_read_len.min(room), exotic);
+            } else {
+                a = gen_unmapped_read(rng, None, o.max_read_len, exotic);
+                b = gen_unmapped_read(rng, None, o.max_read_len, exotic);
+            }
+            a.flags |= F_PAIRED | F_FIRST;
+            b.flags |= F_PAIRED | F_LAST;
+            if rng.bool() {
+                std::mem::swap(&mut a, &mut b);
+            }
+            segs.push(a);
+            segs.push(b);
+        } else if r < o.pm_pair + o.pm_unmapped_single {
+            let place = if rng.chance(1, 4) {
+                let rid = pick_ref(rng);
+                let p = rng.urange(1, refs[rid].seq.len());
+                Some((rid, p))
+            } else {
+                None
+            };
+            let room = place.map(|(rid, p)| refs[rid].seq.len() - p + 1).unwrap_or(usize::MAX);
+            segs.push(gen_unmapped_read(rng, place, o.max_read_len.min(room), exotic));
+        } else {
+            let rid = pick_ref(rng);
+            let p = rng.urange(1, refs[rid].seq.len());
+            let mut a = gen_mapped_read(rng, &refs, rid, p, o, exotic);
+            if rng.below(1000) < o.pm_secondary_or_supp {
+                a.flags |= if rng.bool() { F_SECONDARY } else { F_SUPPLEMENTARY };
+            }
+            segs.push(a);
+        }
+        let name = gen_name(rng, t, name_style);
+        for s in &mut segs {
+            s.template = t;
+            s.name = Some(name.clone());
+        }
+        // defect classes (flag-controlled)
+        for s in &mut segs {
+            if rng.below(1000) < o.pm_noqual {
+                s.quals.clear();
+            }
+            if s.is_unmapped() && rng.below(1000) < o.pm_nobases_unmapped {
+                s.bases.clear();
+                s.quals.clear();
+            }
+            if !s.is_unmapped() && rng.below(1000) < o.pm_nobases_mapped {
+                s.bases.clear();
+                s.quals.clear();
+            }
+            if !s.is_paired() && rng.below(1000) < o.pm_noname {
+                s.name = None;
+            }
+        }
+        for s in &mut segs {
+            if rng.below(1000) < o.pm_tags {
+                s.tags = gen_tags(rng, s, &read_groups);
+            }
+        }
+        templates.push(segs);
+    }
+
+    // file order
+    let mut reads: Vec<ReadDesc> = Vec::new();
+    if o.sorted {
+        for t in templates {
+            reads.extend(t);
+        }
+        // stable sort: (reference, position), unplaced last
+        reads.sort_by_key(|r| (r.ref_id.unwrap_or(usize::MAX), r.pos.unwrap_or(usize::MAX)));
+    } else {
+        // adjacent mates or mates anywhere
+        let mut later: Vec<ReadDesc> = Vec::new();
+        for t in templates {
+            if t.len() == 2 && rng.below(1000) >= o.pm_mates_adjacent {
+                let mut it = t.into_iter();
+                reads.push(it.next().unwrap());
+                later.push(it.next().unwrap());
+            } else {
+                reads.extend(t);
+            }
+        }
+        for r in later {
+            let at = rng.usize_below(reads.len() + 1);
+            reads.insert(at, r);
+        }
+    }
+    finalize_mates(&mut reads);
+    Stream { refs, read_groups, reads }
+}
+
+/// Reference-sequence context of a group of records as the CRAM specification defines it for a
+/// slice: `Single(ref, start, end)` when all records are placed on the same reference, `Unmapped`
+/// when none is placed, `Multi` otherwise. `exact` is false when the group contains placed
+/// unmapped reads (the specification does not say what span such a read covers).
+#[derive(Clone, Debug, PartialEq, Eq)]
+pub enum SliceCtx {
+    Single { ref_id: usize, start: usize, end: usize, exact: bool },
+    Unmapped,
+    Multi,
+}
+
+pub fn slice_context(reads: &[ReadDesc]) -> SliceCtx {
+    let placed: Vec<&ReadDesc> = reads.iter().filter(|r| r.ref_id.is_some() && r.pos.is_some()).collect();
+    if placed.is_empty() {
+        return SliceCtx::Unmapped;
+    }
+    if placed.len() != reads.len() {
+        return SliceCtx::Multi;
+    }
+    let id = placed[0].ref_id.unwrap();
+    if placed.iter().any(|r| r.ref_id != Some(id)) {
+        return SliceCtx::Multi;
+    }
+    let mut start = usize::MAX;
+    let mut end = 0usize;
+    let mut exact = true;
+    for r in &placed {
+        match r.span() {
+            Some((s, e)) => {
+                start = start.min(s);
+                end = end.max(e);
+            }
+            None => {
+                exact = false;
+                let p = r.pos.unwrap();
+                start = start.min(p);
+                end = end.max(p);
+            }
+        }
+    }
+    SliceCtx::Single { ref_id: id, start, end, exact }
+}
